@@ -329,6 +329,20 @@ def check_rejects(rec, case):
         if y_tau.size % k == 0:
             return
         y_test = rng.normal(size=y_tau.size // k)
+    _reject_one(rec, case, how, y_tau, y_test, taus)
+    # widths that differ although one of them is 1 (numpy would broadcast them): several estimate columns
+    # for a single fraction, one estimate column for several fractions
+    k2 = max(2, k)
+    one = np.array([0.3]) if case["s"] % 2 else 0.3
+    _reject_one(rec, case, "est_wide_one_tau", rng.normal(size=(n, k2)), rng.normal(size=n), one)
+    narrow = rng.normal(size=n) if case["s"] % 2 else rng.normal(size=(n, 1))
+    _reject_one(rec, case, "est_narrow_many_taus", narrow, rng.normal(size=n),
+                np.sort(rng.uniform(0.05, 0.95, k2)))
+
+
+def _reject_one(rec, case, how, y_tau, y_test, taus):
+    from typhon.retrieval import scores
+    n, k = case["n"], case["k"]
     rec.ev()
     rec.count("reject.calls")
     rec.setadd("reject_classes", how)
@@ -338,12 +352,12 @@ def check_rejects(rec, case):
         rec.nontriv(["reject", how, bucket(n), k], [n, k, case["extra"], case["s"]])
         return
     except Exception as exc:
-        rec.violation("quantile-score-wrong-exception", dict(case, sub="reject"),
+        rec.violation("quantile-score-wrong-exception", dict(case, sub="reject", how=how),
                       {"exception": repr(exc)[:300]})
         return
-    rec.violation("quantile-score-accepts-inconsistent-shapes", dict(case, sub="reject"),
-                  {"y_tau": list(y_tau.shape), "y_test": list(y_test.shape), "k": k,
-                   "result_shape": list(np.shape(res))})
+    rec.violation("quantile-score-accepts-inconsistent-shapes", dict(case, sub="reject", how=how),
+                  {"y_tau": list(np.shape(y_tau)), "y_test": list(np.shape(y_test)),
+                   "taus": int(np.size(taus)), "result_shape": list(np.shape(res))})
 
 
 # --------------------------------------------------------------------------
@@ -686,6 +700,9 @@ def gen_case(seed, shard, i):
         mag = rng.integers(1, 5, nr).astype(float)
     sign = rng.choice([-1.0, 1.0], nr) if rng.random() < 0.6 else np.ones(nr)
     truth = sign * mag
+    if i % 5 == 2 and kind not in ("ties", "intdtype", "two", "const"):
+        # one truth vector whose magnitudes span 24 decades (trace-gas amounts next to column totals)
+        truth = truth * 10.0 ** (((np.arange(nr) * 7) % 25) - 12.0)
     shapes = REL_SHAPES[int(rng.integers(0, len(REL_SHAPES)))]
     kcols = 1
     if shapes == "nk|nk":
